@@ -642,7 +642,7 @@ func (x *Exec) binop(op token.Token, a, b Val) Val {
 		}
 		return Bool{C: !isnil}
 	case Fn:
-		isnil := av.F == nil
+		isnil := av.F == nil && av.Native == nil
 		if op == token.EQL {
 			return Bool{C: isnil}
 		}
